@@ -230,7 +230,7 @@ Definition S_out (s : st) (l : lam) (L : bool) (r : res) (s' : st) (elifs : list
        (forall b, next s <= b -> b < next s' -> l' b = true -> reach E b) /\
        (rk r = true -> noproc s -> forall t, brk_t s = Some t -> reach E t) /\
        (L = true -> rn r = false -> forall f, Cfin f s -> reach E f)) /\
-    (forall k e b, placed s' k e b -> placed s k e b \/ k = 0 \/ (In (k, l' b) (rmarks r) /\ In (k, e) spans)) /\
+    (forall k e b, placed s' k e b -> placed s k e b \/ (k = 0 /\ e = 0) \/ (In (k, l' b) (rmarks r) /\ In (k, e) spans)) /\
     (forall k m, In (k, m) (rmarks r) -> In k elifs \/ exists e b, placed s' k e b /\ l' b = m) /\
     (forall k e b, placed s k e b -> placed s' k e b).
 
@@ -676,7 +676,7 @@ Definition B_out (s t : st) (c : N) (l l1 : lam) (b : block) (s' : st) (l2 : lam
      (rn rb = true -> reach E (cur s')) /\
      (rk rb = true -> noproc s -> forall t0, brk_t s = Some t0 -> reach E t0) /\
      (Lc = true -> rn rb = false -> forall f, Cfin f s -> reach E f)) /\
-  (forall k e b0, placed s' k e b0 -> placed t k e b0 \/ k = 0 \/ (In (k, l2 b0) (rmarks rb) /\ In (k, e) (spans_block b))) /\
+  (forall k e b0, placed s' k e b0 -> placed t k e b0 \/ (k = 0 /\ e = 0) \/ (In (k, l2 b0) (rmarks rb) /\ In (k, e) (spans_block b))) /\
   (forall k m, In (k, m) (rmarks rb) -> In k (elif_block b) \/ exists e b0, placed s' k e b0 /\ l2 b0 = m) /\
   (forall k e b0, placed t k e b0 -> placed s' k e b0).
 
@@ -902,7 +902,7 @@ Definition K_out (t : st) (c merge : N) (l : lam) (L : bool) (els : oblock) (t' 
      (forall b0, next t <= b0 -> b0 < next t' -> l' b0 = true -> reach E b0) /\
      (opt_n L re = true -> reach E merge) /\
      (okk re = true -> noproc t -> forall t0, brk_t t = Some t0 -> reach E t0)) /\
-  (forall k e b0, placed t' k e b0 -> placed t k e b0 \/ k = 0 \/ (In (k, l' b0) (onm re) /\ In (k, e) (spans_oblock els))) /\
+  (forall k e b0, placed t' k e b0 -> placed t k e b0 \/ (k = 0 /\ e = 0) \/ (In (k, l' b0) (onm re) /\ In (k, e) (spans_oblock els))) /\
   (forall k m, In (k, m) (onm re) -> In k (elif_oblock els) \/ exists e b0, placed t' k e b0 /\ l' b0 = m) /\
   (forall k e b0, placed t k e b0 -> placed t' k e b0).
 
@@ -976,7 +976,7 @@ Definition E_out (s : st) (merge : N) (l : lam) (L : bool) (a : arms) (els : obl
      (forall b0, next s <= b0 -> b0 < next s' -> l' b0 = true -> reach E b0) /\
      (rn ra || opt_n L re = true -> reach E merge) /\
      (rk ra || okk re = true -> noproc s -> forall t0, brk_t s = Some t0 -> reach E t0)) /\
-  (forall k e b0, placed s' k e b0 -> placed s k e b0 \/ k = 0 \/
+  (forall k e b0, placed s' k e b0 -> placed s k e b0 \/ (k = 0 /\ e = 0) \/
      (In (k, l' b0) (rmarks ra ++ onm re) /\ In (k, e) (spans_elif a ++ spans_oblock els))) /\
   (forall k m, In (k, m) (rmarks ra ++ onm re) ->
      In k (map_arms_ids a ++ elif_arms a ++ elif_oblock els) \/ exists e b0, placed s' k e b0 /\ l' b0 = m) /\
@@ -1024,7 +1024,7 @@ Proof.
         (forall b0, next s4p <= b0 -> b0 < next s5 -> l3 b0 = true -> reach E b0) /\
         (rn r2 || opt_n L re = true -> reach E merge) /\
         (rk r2 || okk re = true -> noproc s -> forall t0, brk_t s = Some t0 -> reach E t0)) /\
-     (forall k e b0, placed s5 k e b0 -> placed s4p k e b0 \/ k = 0 \/
+     (forall k e b0, placed s5 k e b0 -> placed s4p k e b0 \/ (k = 0 /\ e = 0) \/
         (In (k, l3 b0) (rmarks r2 ++ onm re) /\ In (k, e) (spans_elif rest ++ spans_oblock els))) /\
      (forall k m, In (k, m) (rmarks r2 ++ onm re) ->
         In k (map_arms_ids rest ++ elif_arms rest ++ elif_oblock els) \/ exists e b0, placed s5 k e b0 /\ l3 b0 = m) /\
@@ -1131,7 +1131,7 @@ Proof.
   - intros k e b0 Hp. autorewrite with plc in Hp. destruct (Da5 k e b0 Hp) as [Hp0|[Hk|(Hm' & Hs)]].
     + destruct (Da4 k e b0 Hp0) as [Hp1|[Hk|(Hm' & Hs)]].
       * unfold s3 in Hp1. autorewrite with plc in Hp1. apply placed_add_stmt_inv in Hp1.
-        destruct Hp1 as [Hp1|(-> & -> & ->)]; [left; exact Hp1|right; left; reflexivity].
+        destruct Hp1 as [Hp1|(-> & -> & ->)]; [left; exact Hp1|right; left; split; reflexivity].
       * right. left. exact Hk.
       * right. right. split; [right; apply in_or_app; left|apply in_or_app; left; apply in_or_app; left; exact Hs].
         assert (Hb0 : b0 < next s4p) by (apply (placed_lt s4p k e); assumption).
@@ -1288,7 +1288,7 @@ Definition LP_out (s : st) (k e : N) (hasel : bool) (l l1 : lam) (body : block) 
   (forall E, incl (edges s10) E -> (L = true -> reach E bodyb) ->
      (forall b0, next s9 <= b0 -> b0 < next s10 -> l2 b0 = true -> reach E b0) /\
      (rn rb = true -> reach E (cur s10)) /\ (rk rb = true -> reach E exitb)) /\
-  (forall k' e' b0, placed s10 k' e' b0 -> placed s9 k' e' b0 \/ k' = 0 \/ (In (k', l2 b0) (rmarks rb) /\ In (k', e') (spans_block body))) /\
+  (forall k' e' b0, placed s10 k' e' b0 -> placed s9 k' e' b0 \/ (k' = 0 /\ e' = 0) \/ (In (k', l2 b0) (rmarks rb) /\ In (k', e') (spans_block body))) /\
   (forall k' m, In (k', m) (rmarks rb) -> In k' (elif_block body) \/ exists e' b0, placed s10 k' e' b0 /\ l2 b0 = m) /\
   (forall k' e' b0, placed s9 k' e' b0 -> placed s10 k' e' b0).
 
@@ -1911,7 +1911,7 @@ Definition C_out (s : st) (mb merge : N) (l : lam) (L : bool) (a : arms) (s' : s
   (forall E, incl (edges s') E -> (L = true -> reach E mb) ->
      (forall b0, next s <= b0 -> b0 < next s' -> l' b0 = true -> reach E b0) /\
      (rk ra = true -> noproc s -> forall t0, brk_t s = Some t0 -> reach E t0)) /\
-  (forall k e b0, placed s' k e b0 -> placed s k e b0 \/ k = 0 \/ (In (k, l' b0) (rmarks ra) /\ In (k, e) (spans_arms a))) /\
+  (forall k e b0, placed s' k e b0 -> placed s k e b0 \/ (k = 0 /\ e = 0) \/ (In (k, l' b0) (rmarks ra) /\ In (k, e) (spans_arms a))) /\
   (forall k m, In (k, m) (rmarks ra) -> In k (elif_arms a) \/ exists e b0, placed s' k e b0 /\ l' b0 = m) /\
   (forall k e b0, placed s k e b0 -> placed s' k e b0).
 
@@ -2260,7 +2260,7 @@ Definition H_out (s : st) (hbs : list N) (nxt : N) (l : lam) (L : bool) (a : arm
      (forall b0, next s <= b0 -> b0 < next s' -> l' b0 = true -> reach E b0) /\
      (rn ra = true -> reach E nxt) /\
      (rk ra = true -> noproc s -> forall t0, brk_t s = Some t0 -> reach E t0)) /\
-  (forall k e b0, placed s' k e b0 -> placed s k e b0 \/ k = 0 \/ (In (k, l' b0) (rmarks ra) /\ In (k, e) (spans_arms a))) /\
+  (forall k e b0, placed s' k e b0 -> placed s k e b0 \/ (k = 0 /\ e = 0) \/ (In (k, l' b0) (rmarks ra) /\ In (k, e) (spans_arms a))) /\
   (forall k m, In (k, m) (rmarks ra) -> In k (elif_arms a) \/ exists e b0, placed s' k e b0 /\ l' b0 = m) /\
   (forall k e b0, placed s k e b0 -> placed s' k e b0).
 
@@ -2490,7 +2490,7 @@ Definition TB_out (s t7 : st) (tryb nat afe : N) (hbs : list N) (l l1 : lam) (bo
      (rn rb = true -> reach E nat) /\ (rn rh = true -> reach E afe) /\ (forall h, In h hbs -> L = true -> reach E h) /\
      (rk rb || rk rh = true -> noproc t7 -> forall t0, brk_t t7 = Some t0 -> reach E t0) /\
      (L = true -> rn rb = false -> forall g, Cfin g t7 -> reach E g)) /\
-  (forall k e b0, placed s11 k e b0 -> placed t7 k e b0 \/ k = 0 \/
+  (forall k e b0, placed s11 k e b0 -> placed t7 k e b0 \/ (k = 0 /\ e = 0) \/
      (In (k, l3 b0) (rmarks rb ++ rmarks rh) /\ In (k, e) (spans_block body ++ spans_arms hs))) /\
   (forall k m, In (k, m) (rmarks rb ++ rmarks rh) -> In k (elif_block body ++ elif_arms hs) \/ exists e b0, placed s11 k e b0 /\ l3 b0 = m) /\
   (forall k e b0, placed t7 k e b0 -> placed s11 k e b0).
@@ -2866,7 +2866,7 @@ Definition TF_out (s s12 : st) (f : N) (hbs : list N) (l l2 : lam) (fb : block) 
      (rn rf = true -> reach E exitb) /\
      (L = true -> noproc s -> forall t0, brk_t s = Some t0 -> reach E t0) /\
      (L = true -> forall g, Cfin g s -> reach E g)) /\
-  (forall k e b0, placed sF k e b0 -> placed s12 k e b0 \/ k = 0 \/ (In (k, l3 b0) (rmarks rf) /\ In (k, e) (spans_block fb))) /\
+  (forall k e b0, placed sF k e b0 -> placed s12 k e b0 \/ (k = 0 /\ e = 0) \/ (In (k, l3 b0) (rmarks rf) /\ In (k, e) (spans_block fb))) /\
   (forall k m, In (k, m) (rmarks rf) -> In k (elif_block fb) \/ exists e b0, placed sF k e b0 /\ l3 b0 = m) /\
   (forall k e b0, placed s12 k e b0 -> placed sF k e b0).
 
@@ -3086,7 +3086,7 @@ Definition TE_out (s s11 : st) (elseb afe : N) (Le : bool) (l l3 : lam) (eb : bl
      (rn re = true -> reach E afe) /\
      (rk re = true -> noproc s11 -> forall t0, brk_t s11 = Some t0 -> reach E t0) /\
      (Le = true -> rn re = false -> forall g, Cfin g s11 -> reach E g)) /\
-  (forall k e b0, placed s12 k e b0 -> placed s11 k e b0 \/ k = 0 \/ (In (k, l4 b0) (rmarks re) /\ In (k, e) (spans_block eb))) /\
+  (forall k e b0, placed s12 k e b0 -> placed s11 k e b0 \/ (k = 0 /\ e = 0) \/ (In (k, l4 b0) (rmarks re) /\ In (k, e) (spans_block eb))) /\
   (forall k m, In (k, m) (rmarks re) -> In k (elif_block eb) \/ exists e b0, placed s12 k e b0 /\ l4 b0 = m) /\
   (forall k e b0, placed s11 k e b0 -> placed s12 k e b0).
 
